@@ -118,3 +118,75 @@ pub proof fn lemma_plain_out_is_join(a: Acc, lines: Seq<Seq<char>>, le: Seq<char
         }
     }
 }
+
+// ---- the final pass never reports dependencies (A8: only a first pass answers with HasDeps)
+pub proof fn lemma_directive_keeps_execute(a: Acc, d: DView, has_tail: bool, env: EnvV)
+    requires
+        a.pp is Execute,
+    ensures
+        (match run_directive(a, d, has_tail, env) { Step::Fail => true, Step::Cont(b) => b.pp is Execute }),
+{
+    reveal(exec_spec);
+}
+
+pub proof fn lemma_fresh_keeps_execute(a: Acc, l: Seq<char>, env: EnvV)
+    requires
+        a.pp is Execute,
+    ensures
+        (match step_fresh(a, l, env) { Step::Fail => true, Step::Cont(b) => b.pp is Execute }),
+{
+}
+
+pub proof fn lemma_step_keeps_execute(a: Acc, l: Seq<char>, env: EnvV)
+    requires
+        a.pp is Execute,
+    ensures
+        (match step_line(a, l, env) { Step::Fail => true, Step::Cont(b) => b.pp is Execute }),
+{
+    match a.cur {
+        None => lemma_fresh_keeps_execute(a, l, env),
+        Some(d) => {
+            if spec_continue(d, l) is None {
+                lemma_directive_keeps_execute(a, d, true, env);
+                match run_directive(a, d, true, env) {
+                    Step::Fail => {},
+                    Step::Cont(a2) => lemma_fresh_keeps_execute(a2, l, env),
+                }
+            }
+        },
+    }
+}
+
+pub proof fn lemma_lines_keep_execute(a: Acc, lines: Seq<Seq<char>>, env: EnvV)
+    requires
+        a.pp is Execute,
+    ensures
+        (match run_lines(a, lines, env) { Step::Fail => true, Step::Cont(b) => b.pp is Execute }),
+    decreases lines.len(),
+{
+    reveal(run_lines);
+    if lines.len() > 0 {
+        lemma_step_keeps_execute(a, lines[0], env);
+        match step_line(a, lines[0], env) {
+            Step::Fail => {},
+            Step::Cont(a2) => lemma_lines_keep_execute(a2, lines.skip(1), env),
+        }
+    }
+}
+
+pub proof fn lemma_second_pass_no_deps(lines: Seq<Seq<char>>, tn: bool, env: EnvV)
+    ensures
+        !(spec_pp(lines, false, tn, env) is HasDeps),
+{
+    reveal(cont_lines);
+    reveal(finish);
+    lemma_lines_keep_execute(acc0(false), lines, env);
+    match run_lines(acc0(false), lines, env) {
+        Step::Fail => {},
+        Step::Cont(b) => {
+            if let Some(d) = b.cur {
+                lemma_directive_keeps_execute(b, d, false, env);
+            }
+        },
+    }
+}
